@@ -8,6 +8,7 @@ from ..resolve import Resolver, Ctx
 from ..escape import Escape, fmt_chain, items_sorted
 from ..q import find, match, try_const, tests, calls, only_via, cfg_node_for
 from ..core import key
+from ..buf import P, FROM
 from .c12 import TAG_BOUNDARIES
 
 EXPLANATION = (
@@ -110,23 +111,19 @@ def guard_only_params(item, prog):
 
 # tag controlled buffers of the public tag API beyond the activation / NDEF read path covered by the C08 table
 API_BUFFERS = [
-    ('nfc.tag.tt1.Type1Tag.write_byte', 'rsp', 0, 'WRITE response'),
-    ('nfc.tag.tt1.Type1Tag.write_block', 'rsp', 0, 'WRITE8 response'),
-    ('nfc.tag.tt2.Type2Tag.write', 'rsp', 0, 'WRITE response'),
-    ('nfc.tag.tt2_nxp.NTAG21x._protect_with_lockbits', 'cfgdata', 0, 'READ response'),
-    ('nfc.tag.tt2_nxp.NTAG21x._protect_with_password', 'cfg', 0, 'READ response'),
-    ('nfc.tag.tt2_nxp.MifareUltralightC._authenticate', 'rsp', 0, 'AUTHENTICATE response'),
-    ('nfc.tag.tt2_nxp.NTAG21x._authenticate', 'rsp', 0, 'PWD_AUTH response'),
-    ('nfc.tag.tt2_nxp.NTAG21x.signature', 'rsp', 0, 'READ_SIG response'),
-    ('nfc.tag.tt3_sony.FelicaLite._format', 'mc', 0, 'MC block'),
-    ('nfc.tag.tt3_sony.FelicaLite._protect', 'mc', 0, 'MC block'),
-    ('nfc.tag.tt3_sony.FelicaLiteS._protect', 'mc', 0, 'MC block'),
-    ('nfc.tag.tt3_sony.FelicaLiteS._protect', 'ckv', 0, 'CKV block'),
-    ('nfc.tag.tt3_sony.FelicaStandard.request_service', 'data', 0, 'request service response'),
-    ('nfc.tag.tt3_sony.FelicaStandard.request_response', 'data', 0, 'request response response'),
-    ('nfc.tag.tt3_sony.FelicaStandard.search_service_code', 'data', 0, 'search service code response'),
-    ('nfc.tag.tt3_sony.FelicaStandard.request_system_code', 'data', 0, 'request system code response'),
-    ('nfc.tag.tt3_sony.FelicaLite.authenticate', 'rsp', 0, 'read response'),
+    ('nfc.tag.tt1.Type1Tag.write_block', FROM('self.transceive'), 0, 'WRITE8 response'),
+    ('nfc.tag.tt2.Type2Tag.write', FROM('self.transceive'), 0, 'WRITE response'),
+    ('nfc.tag.tt2_nxp.NTAG21x._protect_with_lockbits', FROM('self.read'), 0, 'READ response'),
+    ('nfc.tag.tt2_nxp.NTAG21x._protect_with_password', FROM('self.read'), 0, 'READ response'),
+    ('nfc.tag.tt2_nxp.MifareUltralightC._authenticate', FROM('self.transceive'), 0, 'AUTHENTICATE response'),
+    ('nfc.tag.tt2_nxp.NTAG21x._authenticate', FROM('self.transceive'), 0, 'PWD_AUTH response'),
+    ('nfc.tag.tt3_sony.FelicaLite._format', FROM('self.read_without_mac'), 0, 'MC block'),
+    ('nfc.tag.tt3_sony.FelicaLite._protect', FROM('self.read_without_mac'), 0, 'MC block'),
+    ('nfc.tag.tt3_sony.FelicaLiteS._protect', FROM('self.read_without_mac'), 0, 'MC / CKV block'),
+    ('nfc.tag.tt3_sony.FelicaStandard.request_service', FROM('self.send_cmd_recv_rsp'), 0, 'request service response'),
+    ('nfc.tag.tt3_sony.FelicaStandard.request_response', FROM('self.send_cmd_recv_rsp'), 0, 'request response response'),
+    ('nfc.tag.tt3_sony.FelicaStandard.search_service_code', FROM('self.send_cmd_recv_rsp'), 0, 'search service code response'),
+    ('nfc.tag.tt3_sony.FelicaStandard.request_system_code', FROM('self.send_cmd_recv_rsp'), 0, 'request system code response'),
 ]
 
 
